@@ -59,7 +59,7 @@ def probe_fixed(code, f):
         buf = bytes([1] + [0] * (n - 1)) if n else b''
         try:
             r = f(code, buf, 0, True, [])
-        except struct.error:
+        except Exception:           # struct.error today; a hardened reader may answer with its own exception class
             continue
         need = n
         break
@@ -79,9 +79,10 @@ def probe_fixed(code, f):
             # one byte less than needed must be a struct.error, at an offset too
             try:
                 f(code, buf[:3 + need - 1], 3, le, [])
-                raise TranslatorError('unmarshallers[%r]: no bounds error one byte short' % code)
-            except struct.error:
+            except Exception:
                 pass
+            else:
+                raise TranslatorError('unmarshallers[%r]: no bounds error one byte short' % code)
     if len(advs) != 1:
         raise TranslatorError('unmarshallers[%r] is not fixed-size: %r' % (code, sorted(advs)))
     adv = advs.pop()
@@ -103,7 +104,9 @@ def _is(f, args, expected):
         return False
 
 
-def _raises(f, args, exc):
+def _raises(f, args, exc=Exception):
+    """the call ends in an exception (WHICH class is not part of the table: struct.error today, possibly the library's
+    own MarshallingError after a hardening)."""
     try:
         f(*args)
     except exc:
@@ -111,6 +114,27 @@ def _raises(f, args, exc):
     except Exception:
         return False
     return False
+
+
+def _byte_reads(f, args):
+    """how often the call dispatches to unmarshallers['y'] (whatever it raises afterwards): tells "the loop / the nested
+    decode was entered" apart from "it was skipped" without looking at exception classes."""
+    from txdbus import marshal
+    n = [0]
+    orig = marshal.unmarshallers['y']
+
+    def shim(*a):
+        n[0] += 1
+        return orig(*a)
+    marshal.unmarshallers['y'] = shim
+    try:
+        try:
+            f(*args)
+        except Exception:
+            pass
+    finally:
+        marshal.unmarshallers['y'] = orig
+    return n[0]
 
 
 def classify(code, f):
@@ -123,21 +147,22 @@ def classify(code, f):
             and _is(f, (code, b'zz\x01\x00\x00\x00q\x00', 2, True, []), (6, 'q'))
             and _is(f, (code, b'\xff\xff\xff\xffab', 0, True, []), (4 + 0xffffffff + 1, 'ab'))     # slice clamps, unsigned
             and _is(f, (code, b'\x80\x00\x00\x00ab', 0, False, []), (4 + 0x80000000 + 1, 'ab'))
-            and _raises(f, (code, b'\x03\x00\x00', 0, True, []), struct.error)):
+            and _raises(f, (code, b'\x03\x00\x00', 0, True, []))):
         return 'string'
     if (_is(f, (code, b'\x03abc\x00', 0, True, []), (5, 'abc'))
             and _is(f, (code, b'z\x01q\x00', 1, False, []), (3, 'q'))
             and _is(f, (code, b'\xffab', 0, False, []), (1 + 255 + 1, 'ab'))                               # byte >= 128: unsigned
             and _is(f, (code, b'\x80ab', 0, True, []), (1 + 128 + 1, 'ab'))
-            and _raises(f, (code, b'', 0, True, []), struct.error)):
+            and _raises(f, (code, b'', 0, True, []))):
         return 'signature'
     if (_is(f, ('ay', b'\x02\x00\x00\x00\x07\x09', 0, True, []), (6, [7, 9]))
             and _is(f, ('ay', b'\x00\x00\x00\x01\x07', 0, False, []), (5, [7]))
             and _is(f, ('au', b'\x00\x00\x00\x00', 0, True, []), (4, []))
             and _is(f, ('ax', b'\x08\x00\x00\x00' + b'\x00' * 4 + b'\x05' + b'\x00' * 7, 0, True, []), (16, [5]))  # pad to the element
-            and _raises(f, ('ay', b'\xff\xff\xff\xff\x07', 0, True, []), struct.error)                   # unsigned: runs into the end
-            and _raises(f, ('ay', b'\x00\x00\x00\x80\x07', 0, True, []), struct.error)
-            and _raises(f, ('ay', b'\x02\x00\x00', 0, True, []), struct.error)):
+            and _raises(f, ('ay', b'\xff\xff\xff\xff\x07', 0, True, []))
+            and _byte_reads(f, ('ay', b'\xff\xff\xff\xff\x07', 0, True, [])) == 2       # unsigned: 1 element, then the end of the data
+            and _byte_reads(f, ('ay', b'\x00\x00\x00\x80\x07\x08', 0, True, [])) == 3
+            and _raises(f, ('ay', b'\x02\x00\x00', 0, True, []))):
         return 'array'
     op, cl = (code, {'(': ')', '{': '}'}.get(code, ')'))
     if (_is(f, (op + cl, b'', 0, True, []), (0, []))
@@ -148,8 +173,9 @@ def classify(code, f):
     if (_is(f, ('v', b'\x01y\x00\x05', 0, True, []), (4, 5))
             and _is(f, ('v', b'\x01u\x00\x00\x00\x00\x00\x09', 0, False, []), (8, 9))                 # pad to the value
             and _is(f, ('v', b'\x02yy\x00\x05\x06', 0, True, []), (6, 5))                               # first value only
-            and _raises(f, ('v', b'\x00\x00', 0, True, []), IndexError)
-            and _raises(f, ('v', b'\x80' + b'y' * 10, 0, True, []), struct.error)):                         # byte >= 128: unsigned
+            and _raises(f, ('v', b'\x00\x00', 0, True, []))
+            and _raises(f, ('v', b'\x80' + b'y' * 10, 0, True, []))
+            and _byte_reads(f, ('v', b'\x80' + b'y' * 10, 0, True, [])) == 1):                              # byte >= 128: unsigned
         return 'variant'
     return None
 
